@@ -3,7 +3,7 @@ import ast
 
 from .. import ordtype as O
 from ..loader import AnalysisError, attach_parents, norm_stmt
-from ..small import arms, find_ifs, ifexp_arms
+from ..small import FoldError, arms, divides_by, find_ifs, fold, ifexp_arms
 
 EST = "variogram/estimator.pyx"
 VAR = "variogram/variogram.py"
@@ -153,7 +153,7 @@ def directions(ctx, rule="R09.4"):
     if len(prep) != 1:
         raise AnalysisError("anchor vanished: directional preparation block")
     t = [norm_stmt(x) for x in prep[0].body]
-    ok = "norms = np.linalg.norm(direction, axis=1)" in t and "direction = direction / norms[:, np.newaxis]" in t
+    ok = "norms = np.linalg.norm(direction, axis=1)" in t and any(divides_by(x, "direction", "norms") and "norms[:, np.newaxis]" in ast.unparse(x) for x in prep[0].body)
     ctx.check(ok, rule, site, "direction vectors are normalised to unit length before the kernel (which assumes normed directions)", "unit-dirs")
     ok = any(x.startswith("if np.any(np.isclose(norms, 0)): raise") for x in t)
     ctx.check(ok, rule, site, "zero-length directions raise", "zero-dir")
@@ -175,10 +175,10 @@ def directions(ctx, rule="R09.4"):
     from .. import small
 
     if ok:
-        dd = small.last_def_before(ve, "direction", dc[0].lineno)
-        okn = dd is not None and "norms" in ast.unparse(dd.value) and ast.unparse(dd.value).startswith(("np.divide(direction", "direction /"))
+        dd = small.last_def_before(ve, "direction", dc[0]._ord)
+        okn = dd is not None and divides_by(dd, "direction", "norms")
         sc = [n for n in ast.walk(ve) if isinstance(n, ast.Call) and getattr(n.func, "id", "") == "_separate_dirs_test"]
-        oks = len(sc) == 1 and small.last_def_before(ve, "direction", sc[0].lineno) is dd
+        oks = len(sc) == 1 and small.last_def_before(ve, "direction", sc[0]._ord) is dd
         ctx.check(okn and oks, rule, site, "the directions reaching the kernel - and the separated-directions test - are the normalised ones", "normalised-reach")
     sd = prog.func(VAR, "_separate_dirs_test")
     t = ast.unparse(sd)
@@ -186,6 +186,190 @@ def directions(ctx, rule="R09.4"):
     ctx.check(ok, rule, VAR + "::_separate_dirs_test", "directions count as separated iff every pair encloses at least twice the tolerance (smallest angle, all pairs)", "separated")
     sq = [s for s in ast.walk(run[0]) if isinstance(s, ast.If) and ast.unparse(s.test) == "dir_no == 1"] if run else []
     ctx.check(len(sq) == 1 and norm_stmt(sq[0].body[0]) in ("(estimates, counts) = (estimates[0], counts[0])", "estimates, counts = (estimates[0], counts[0])", "estimates, counts = estimates[0], counts[0]"), rule, site, "a single direction returns 1-D results", "squeeze")
+
+
+# ---------------------------------------------------------------------------------------------------------------- R09.7
+class _Trig:
+    """Product of sin/cos of angle columns: ({j: power of sin a_j}, {j: power of cos a_j}) - a monomial in the trigonometric ring."""
+
+    def __init__(self, s=None, c=None):
+        self.s, self.c = dict(s or {}), dict(c or {})
+
+    def mul(self, o):
+        s, c = dict(self.s), dict(self.c)
+        for k, v in o.s.items():
+            s[k] = s.get(k, 0) + v
+        for k, v in o.c.items():
+            c[k] = c.get(k, 0) + v
+        return _Trig(s, c)
+
+    def key(self):
+        return (tuple(sorted(self.s.items())), tuple(sorted(self.c.items())))
+
+
+def _norm2_is_one(comps, n_ang):
+    """sum_i comp_i^2 == 1 identically, using cos^2 = 1 - sin^2: polynomial arithmetic in S_j = sin^2 a_j (exact)."""
+    poly = {}  # monomial (tuple of exponents of S_j) -> integer coefficient
+
+    def add(mono, coef):
+        poly[mono] = poly.get(mono, 0) + coef
+
+    for t in comps:
+        terms = {tuple([0] * n_ang): 1}
+        for j in range(n_ang):
+            ps, pc = t.s.get(j, 0), t.c.get(j, 0)  # squared component: sin^(2 ps) cos^(2 pc) = S^ps (1 - S)^pc
+            new = {}
+            for mono, coef in terms.items():
+                for k in range(pc + 1):
+                    binom = 1
+                    for x in range(k):
+                        binom = binom * (pc - x) // (x + 1)
+                    m = list(mono)
+                    m[j] += ps + k
+                    new[tuple(m)] = new.get(tuple(m), 0) + coef * binom * (-1) ** k
+            terms = new
+        for mono, coef in terms.items():
+            add(mono, coef)
+    poly = {m: c for m, c in poly.items() if c != 0}
+    return poly == {tuple([0] * n_ang): 1}
+
+
+def ang2dir_rule(ctx, rule="R09.7"):
+    """ang2dir turns d-1 angles into a direction: the components, evaluated symbolically for d = 2, 3, 4 by unrolling the loop, must be
+    the hyperspherical coordinates - in particular of unit length for every angle (the kernel's angle test assumes normed vectors and
+    vario_estimate renormalises only explicitly given direction vectors)."""
+    from ..small import UnrollError, subst_fold, unroll_for
+
+    fn = ctx.prog.func("tools/geometric.py", "ang2dir")
+    site = "tools/geometric.py::ang2dir"
+    body = [s for s in fn.body if not (isinstance(s, ast.Expr) and isinstance(s.value, ast.Constant))]
+    start = [i for i, s in enumerate(body) if isinstance(s, ast.Assign) and ast.unparse(s.targets[0]) == "vec" and "np.empty" in ast.unparse(s.value)]
+    if len(start) != 1:
+        raise AnalysisError("anchor vanished: vec = np.empty(...) in ang2dir")
+    tail = body[start[0] + 1:]
+
+    class Undecided(Exception):
+        pass
+
+    def columns(e, n_ang):
+        """angle columns selected by `angles`, `angles[:, a:b]`, `angles[:, k]` -> list of column indices"""
+        if isinstance(e, ast.Name) and e.id == "angles":
+            return list(range(n_ang))
+        if isinstance(e, ast.Subscript) and isinstance(e.value, ast.Name) and e.value.id == "angles" and isinstance(e.slice, ast.Tuple) and len(e.slice.elts) == 2 \
+                and isinstance(e.slice.elts[0], ast.Slice) and e.slice.elts[0].lower is None and e.slice.elts[0].upper is None:
+            c = e.slice.elts[1]
+            if isinstance(c, ast.Slice) and c.step is None:
+                lo = 0 if c.lower is None else fold(c.lower, {})
+                hi = n_ang if c.upper is None else fold(c.upper, {})
+                return list(range(n_ang))[int(lo):int(hi)]
+            k = fold(c, {})
+            if isinstance(k, (int, float)) and int(k) == k:
+                k = int(k)
+                if k < 0:
+                    k += n_ang
+                if not 0 <= k < n_ang:
+                    raise Undecided("column %d of %d angle columns" % (k, n_ang))
+                return [k]
+        raise Undecided("angle selection %s" % ast.unparse(e))
+
+    def value(e, n_ang, vec):
+        if isinstance(e, ast.Call) and ast.unparse(e.func) == "np.prod" and len(e.args) == 1 and {k.arg: ast.unparse(k.value) for k in e.keywords} == {"axis": "1"}:
+            inner = e.args[0]
+            if isinstance(inner, ast.Call) and ast.unparse(inner.func) in ("np.sin", "np.cos") and len(inner.args) == 1:
+                cols = columns(inner.args[0], n_ang)
+                t = _Trig()
+                for j in cols:
+                    t = t.mul(_Trig({j: 1}, {}) if ast.unparse(inner.func) == "np.sin" else _Trig({}, {j: 1}))
+                return t
+        if isinstance(e, ast.Call) and ast.unparse(e.func) in ("np.sin", "np.cos") and len(e.args) == 1:
+            cols = columns(e.args[0], n_ang)
+            if len(cols) == 1:
+                return _Trig({cols[0]: 1}, {}) if ast.unparse(e.func) == "np.sin" else _Trig({}, {cols[0]: 1})
+        if isinstance(e, ast.BinOp) and isinstance(e.op, ast.Mult):
+            return value(e.left, n_ang, vec).mul(value(e.right, n_ang, vec))
+        if isinstance(e, ast.Subscript) and ast.unparse(e.value) == "vec":
+            k = vec_col(e)
+            if isinstance(k, int) and vec[k] is not None:
+                return vec[k]
+        raise Undecided("component expression %s" % ast.unparse(e))
+
+    def vec_col(t):
+        """vec[:, k] -> k ; vec[:, [a, b]] -> [a, b]"""
+        if isinstance(t, ast.Subscript) and ast.unparse(t.value) == "vec" and isinstance(t.slice, ast.Tuple) and len(t.slice.elts) == 2 and isinstance(t.slice.elts[0], ast.Slice):
+            c = t.slice.elts[1]
+            if isinstance(c, ast.List):
+                return [int(fold(x, {})) for x in c.elts]
+            k = fold(c, {})
+            if int(k) == k:
+                return int(k)
+        raise Undecided("store target %s" % ast.unparse(t))
+
+    def run_stmts(stmts, dim, vec, bind):
+        n_ang = dim - 1
+        for st in stmts:
+            st2 = subst_fold(st, bind) if bind else st
+            if isinstance(st2, ast.Assign) and len(st2.targets) == 1 and ast.unparse(st2.targets[0].value if isinstance(st2.targets[0], ast.Subscript) else st2.targets[0]) == "vec":
+                k = vec_col(st2.targets[0])
+                if isinstance(k, list):
+                    src = vec_col(st2.value)
+                    if not (isinstance(src, list) and len(src) == len(k)):
+                        raise Undecided("column permutation %s" % norm_stmt(st2))
+                    vals = [vec[j] for j in src]
+                    for kk, v in zip(k, vals):
+                        vec[kk] = v
+                else:
+                    vec[k] = value(st2.value, n_ang, vec)
+            elif isinstance(st2, ast.AugAssign) and isinstance(st2.op, ast.Mult) and isinstance(st2.target, ast.Subscript) and ast.unparse(st2.target.value) == "vec":
+                k = vec_col(st2.target)
+                if not isinstance(k, int) or vec[k] is None:
+                    raise Undecided("in-place update %s" % norm_stmt(st2))
+                vec[k] = vec[k].mul(value(st2.value, n_ang, vec))
+            elif isinstance(st2, ast.For):
+                try:
+                    its = unroll_for(st2, {}, {"dim": dim})
+                except UnrollError as e:
+                    raise Undecided(str(e))
+                for b in its:
+                    bb = dict(bind)
+                    bb.update(b)
+                    run_stmts(st.body, dim, vec, bb)
+            elif isinstance(st2, ast.If):
+                try:
+                    c = fold_bool(st2.test, dim)
+                except FoldError as e:
+                    raise Undecided("branch condition %s: %s" % (ast.unparse(st2.test), e))
+                run_stmts(st.body if c else st.orelse, dim, vec, bind)
+            elif isinstance(st2, ast.Return):
+                return
+            else:
+                raise Undecided("statement %s" % norm_stmt(st2)[:80])
+
+    def fold_bool(t, dim):
+        if isinstance(t, ast.Compare) and len(t.ops) == 1 and isinstance(t.ops[0], ast.In) and isinstance(t.comparators[0], (ast.List, ast.Tuple)):
+            return fold(t.left, {"dim": dim}) in [fold(x, {"dim": dim}) for x in t.comparators[0].elts]
+        if isinstance(t, ast.Compare) and len(t.ops) == 1 and isinstance(t.ops[0], (ast.Eq, ast.NotEq, ast.Lt, ast.LtE, ast.Gt, ast.GtE)):
+            a, b = fold(t.left, {"dim": dim}), fold(t.comparators[0], {"dim": dim})
+            return {ast.Eq: a == b, ast.NotEq: a != b, ast.Lt: a < b, ast.LtE: a <= b, ast.Gt: a > b, ast.GtE: a >= b}[type(t.ops[0])]
+        raise FoldError("not a comparison on dim")
+
+    # documented convention (2-D: (cos, sin) of the azimuth; 3-D: azimuth + polar angle from z; d-D: hyperspherical)
+    want = {
+        2: [((), ((0, 1),)), (((0, 1),), ())],
+        3: [(((1, 1),), ((0, 1),)), (((0, 1), (1, 1)), ()), ((), ((1, 1),))],
+        4: [(((0, 1), (1, 1), (2, 1)), ()), (((1, 1), (2, 1)), ((0, 1),)), (((2, 1),), ((1, 1),)), ((), ((2, 1),))],
+    }
+    for dim in (2, 3, 4):
+        vec = [None] * dim
+        try:
+            run_stmts(tail, dim, vec, {})
+            if any(v is None for v in vec):
+                raise Undecided("component never assigned")
+        except Undecided as e:
+            ctx.undecided(rule, site, "symbolic evaluation for dim=%d stopped at: %s" % (dim, e))
+            continue
+        txt = ["*".join(["sin(a%d)" % j + ("^%d" % p if p > 1 else "") for j, p in sorted(v.s.items())] + ["cos(a%d)" % j + ("^%d" % p if p > 1 else "") for j, p in sorted(v.c.items())]) or "1" for v in vec]
+        ctx.check(_norm2_is_one(vec, dim - 1), rule, site, "dim=%d: the components %s have unit length for all angles (exact polynomial identity with cos^2 = 1 - sin^2)" % (dim, txt), "unit:%d" % dim)
+        ctx.check([v.key() for v in vec] == want[dim], rule, site, "dim=%d: components follow the documented convention (azimuth first; hyperspherical in d > 3): %s" % (dim, txt), "convention:%d" % dim)
 
 
 def grid_layout(ctx, rule="R09.5"):
@@ -217,6 +401,7 @@ def run(ctx):
     preprocessing(ctx)
     sampling(ctx)
     directions(ctx)
+    ang2dir_rule(ctx)
     grid_layout(ctx)
     from .C08 import run as _c08  # noqa: F401  (R08.2 / R08.6 carry the pair-once / evenness / symmetry clauses)
     from .. import small
